@@ -309,6 +309,7 @@ fn main() {
     let mut repeat_parse = 1usize;
     let mut render = false;
     let mut abandon: Option<usize> = None;
+    let mut pre_layouts: Vec<Vec<String>> = vec![];
     for line in text.lines() {
         let mut w = line.split_whitespace();
         let Some(cmd) = w.next() else { continue };
@@ -356,6 +357,7 @@ fn main() {
             "REPEAT_PARSE" => repeat_parse = rest[0].parse().unwrap(),
             "RENDER" => render = rest[0] == "1",
             "ABANDON" => abandon = Some(rest[0].parse().unwrap()),
+            "PRE_LAYOUT" => pre_layouts.push(rest.iter().map(|s| unhex(s)).collect()),
             _ => panic!("unknown scenario line {line}"),
         }
     }
@@ -487,6 +489,37 @@ fn main() {
             .filter(|s| s.is_output())
             .map(|s| s.name.clone())
             .collect();
+    }
+
+    // earlier complete runs of the SAME TestCase value with other (individually consistent) drivers - another output
+    // layout, all answers 0 - before the observed run: they must leave nothing behind in the test case
+    for lay in &pre_layouts {
+        let pre = Script {
+            layout: lay.clone(),
+            override_write: true,
+            ..Default::default()
+        };
+        let d = Driver {
+            script: Rc::new(pre),
+            signals: test_case.signals.clone(),
+            foreign: vec![Signal::output("FOREIGN_A", 8)],
+            calls: Rc::new(RefCell::new(0usize)),
+            log: Rc::new(RefCell::new(vec![])),
+        };
+        let mut drv = OverridingDriver(d);
+        let r = catch_unwind(AssertUnwindSafe(|| {
+            let mut n = 0usize;
+            if let Ok(it) = test_case.try_iter(&mut drv) {
+                for _ in it.take(max_rows) {
+                    n += 1;
+                }
+            }
+            n
+        }));
+        match r {
+            Ok(n) => println!("PRE_RUN ok {n}"),
+            Err(e) => println!("PRE_RUN panic {}", panic_msg(e)),
+        }
     }
 
     if let Some(k) = abandon {
